@@ -104,6 +104,11 @@ class C13(Prop):
         x = make_data(case)
         try:
             mf = MatchedFilter(x, temp_kind=case["kind"], nbins_max=case["nbmax"], spacing_factor=case["sf"])
+            # another filter of the same shape (same bank, same length, other data) is built BEFORE the first one is
+            # looked at: the responses of an object must be its own, whatever was filtered afterwards
+            decoy = MatchedFilter(np.roll(x[::-1].copy(), 3) * np.float32(1.5) + np.float32(2.0), temp_kind=case["kind"],
+                                  nbins_max=case["nbmax"], spacing_factor=case["sf"])
+            del decoy
             res = {"convs": [[float(v) for v in r] for r in mf.convs], "snr": float(mf.snr), "peak": int(mf.peak_bin),
                    "bestw": float(mf.best_temp.width), "z": [float(v) for v in mf.zscores.data],
                    "temps": [{"data": [float(v) for v in t.data], "ref": int(t.ref_bin), "w": float(t.width)} for t in mf.temp_bank],
